@@ -55,7 +55,7 @@ for net, sp in NETS.items():
                        'all(result[j][i] == %r[i][j] for i in range(%d) for j in range(%d))' % (A, ns, ne))],
              cross_check=False)
     contract(EQ + '.get_net_comp', P, label=net, args=dict(self=system(net), T=Real(300., 2500.), P=Real(0.01, 100.)),
-             requires=['T > 0', 'P > 0', 'all(v >= 0 for v in self.network.values())'],
+             requires=['T > 0', 'P > 0', 'all(v >= 0 for v in self.network.values())', 'any(v > 0 for v in self.network.values())'],
              ensures=[('amounts-positive', 'all(result.moles[i] > 0 for i in range(%d))' % ns),
                       ('mole-fractions-sum-to-one', ' + '.join('result.mole_frac[%d]' % i for i in range(ns)) + ' == 1'),
                       ('species-order-kept', 'result.species == %r' % [n for n, c in sp]),
@@ -83,7 +83,7 @@ contract(EQ + '.__init__', P, label='model-superset-in-another-order',
 contract(EQ + '.get_net_comp', P, label='model-superset-in-another-order',
          args=dict(self=New(EQ, model=ListOf([gas(n, c) for n, c in model_order]), network=DictOf({n: Real(0., 2.) for n, c in sp_})),
                    T=Real(300., 2500.), P=Real(0.01, 100.)),
-         requires=['T > 0', 'P > 0', 'all(v >= 0 for v in self.network.values())'],
+         requires=['T > 0', 'P > 0', 'all(v >= 0 for v in self.network.values())', 'any(v > 0 for v in self.network.values())'],
          ensures=[('species-order-kept', 'result.species == %r' % [n for n, c in sp_]),
                   ('gibbs-energies-of-the-network-species', 'all(ext_call("minimize")["args"][0][i] == self.model[%r[i]].get_GoRT(T=T) for i in range(3))'
                    % [n for n, c in sp_])],
@@ -95,7 +95,7 @@ for net, sp in NETS.items():
     used = New(EQ, model=ListOf([gas(n, c) for n, c in sp]), network=DictOf({n: Real(0., 2.) for n, c in sp}),
                _post=dict(T=Real(300., 2500.), P=Real(0.01, 100.), gibbs=RealList(ns, -50., 50.)))
     contract(EQ + '.get_net_comp', P, label=net + ',object-used-before', args=dict(self=used, T=Real(300., 2500.), P=Real(0.01, 100.)),
-             requires=['T > 0', 'P > 0', 'all(v >= 0 for v in self.network.values())'],
+             requires=['T > 0', 'P > 0', 'all(v >= 0 for v in self.network.values())', 'any(v > 0 for v in self.network.values())'],
              ensures=[('gibbs-energies-at-the-new-T', 'all(ext_call("minimize")["args"][0][i] == self.model[%r[i]].get_GoRT(T=T) '
                                                       'for i in range(%d))' % ([n for n, c in sp], ns)),
                       ('pressure-in-bar', 'ext_call("minimize")["args"][1] == P * 1.01325')],
